@@ -327,6 +327,7 @@ func layoutFromSpec(m map[string]string) Layout {
 }
 
 type renderer struct {
+	hashN   int
 	sb      strings.Builder
 	offsets map[string]int
 	l       Layout
@@ -422,7 +423,12 @@ func (r *renderer) annotation(n Node) string {
 		}
 	}
 	if r.l.HashTrail && !(note != "" && r.l.Ann == "inline" && body != "") && !(r.l.Ann == "inline" && body != "" && len(n.Rules) == 0) {
-		s += " # trailing comment"
+		r.hashN++
+		if r.hashN%2 == 0 {
+			s += " #" // an empty comment
+		} else {
+			s += " # trailing comment"
+		}
 	}
 	return s
 }
